@@ -93,48 +93,71 @@ VR(t, lk) == IF t.kind = "ref" THEN lk[t.tag] # None ELSE \A k \in Range(Kids(t)
 \* ------------------------------------------------------------------ state machine
 VARIABLES tree,    \* the scope tree (constant along a behaviour)
           ext,     \* table name -> separately constructed scope whose Objects() serve as external table
+          ix,      \* index derived from tree and ext once (constant along a behaviour)
           link,    \* ref tag -> object tag or None
           tab,     \* ref tag -> name of the table last applied over it for its namespace, or "none"
           cov,     \* ref tags over which their own namespace has been applied
           built,   \* scope tags already constructed
           hist     \* the applications so far
-vars == <<tree, ext, link, tab, cov, built, hist>>
+vars == <<tree, ext, ix, link, tab, cov, built, hist>>
 
-TreeSites == RefSites(tree, <<>>)
-ExtSites == UNION {RefSites(ext[n], <<>>) : n \in DOMAIN ext}
-TreeScopes == ScopesIn(tree)
-AllScopes == TreeScopes \cup UNION {ScopesIn(ext[n]) : n \in DOMAIN ext}
-AllObjs == ObjsIn(tree) \cup UNION {ObjsIn(ext[n]) : n \in DOMAIN ext}
-ScopeByTag(g) == CHOOSE s \in AllScopes : s.tag = g
-Under(s) == RefSites(s, <<>>)
+Act(op, scope, ns, table) == [op |-> op, scope |-> scope, ns |-> ns, table |-> table]
+
+\* everything that depends on the tree only is computed once: the scopes by tag, the lexical
+\* position of every reference, and for every possible call what the propagation assigns
+BuildIx(tr, ex, nss) ==
+    LET tsc == ScopesIn(tr)
+        scs == tsc \cup UNION {ScopesIn(ex[n]) : n \in DOMAIN ex}
+        obs == ObjsIn(tr) \cup UNION {ObjsIn(ex[n]) : n \in DOMAIN ex}
+        sites == RefSites(tr, <<>>)
+        es == UNION {RefSites(ex[n], <<>>) : n \in DOMAIN ex}
+        sc == [g \in {s.tag : s \in scs} |-> CHOOSE s \in scs : s.tag = g]
+        acts == {Act("self", s.tag, "", "") : s \in tsc}
+                \cup {Act("ns", s.tag, n, T) : s \in tsc, n \in nss, T \in DOMAIN ex}
+        objsOf(a) == IF a.op = "self" THEN <<>> ELSE Table(ex[a.table])
+        near(x) == LET tb == Table(sc[x.chain[Len(x.chain)]]) IN IF x.id \in DOMAIN tb THEN tb[x.id] ELSE "?"
+    IN [scopes |-> sc,
+        tscopes |-> {s.tag : s \in tsc},
+        sites |-> sites,
+        esites |-> es,
+        near |-> [g \in {x.tag : x \in sites \cup es} |-> near(CHOOSE x \in sites \cup es : x.tag = g)],
+        acts |-> acts,
+        miss |-> [a \in acts |-> Missing(sc[a.scope], objsOf(a), a.ns) # {}],
+        upd |-> [a \in acts |-> IF Missing(sc[a.scope], objsOf(a), a.ns) # {} THEN {}
+                                ELSE Propagate(sc[a.scope], objsOf(a), a.ns)],
+        touched |-> [a \in acts |-> {x.tag : x \in {y \in RefSites(sc[a.scope], <<>>) : y.ns = a.ns}}],
+        inner |-> [g \in {s.tag : s \in tsc} |-> {i.tag : i \in ScopesIn(sc[g]) \ {sc[g]}}],
+        under |-> [g \in {s.tag : s \in tsc} |-> {x.tag : x \in RefSites(sc[g], <<>>)}],
+        objs |-> [g \in {o.tag : o \in obs} |-> CHOOSE o \in obs : o.tag = g]]
+
+TreeSites == ix.sites
+ExtSites == ix.esites
+TreeScopes == {ix.scopes[g] : g \in ix.tscopes}
+AllObjs == Range(ix.objs)
+ScopeByTag(g) == ix.scopes[g]
 Namespaces == {s.ns : s \in TreeSites} \ {""}
-
 \* the object with that ID in the NEAREST enclosing scope
-Nearest(site) == LET tb == Table(ScopeByTag(site.chain[Len(site.chain)]))
-                 IN IF site.id \in DOMAIN tb THEN tb[site.id] ELSE "?"
+Nearest(site) == ix.near[site.tag]
 
-InitState(tr, ex) ==
+InitState(tr, ex, nss) ==
     /\ tree = tr
     /\ ext = ex
-    /\ link = [g \in {s.tag : s \in TreeSites \cup ExtSites} |->
-                  IF \E s \in ExtSites : s.tag = g THEN Nearest(CHOOSE s \in ExtSites : s.tag = g) ELSE None]
-    /\ tab = [g \in {s.tag : s \in TreeSites} |-> "none"]
+    /\ ix = BuildIx(tr, ex, nss)
+    /\ link = [g \in DOMAIN ix.near |-> IF \E s \in ix.esites : s.tag = g THEN ix.near[g] ELSE None]
+    /\ tab = [g \in {s.tag : s \in ix.sites} |-> "none"]
     /\ cov = {}
     /\ built = {}
     /\ hist = <<>>
 
-Act(op, scope, ns, table) == [op |-> op, scope |-> scope, ns |-> ns, table |-> table]
-ActObjs(a) == IF a.op = "self" THEN <<>> ELSE Table(ext[a.table])
-InnerBuilt(s, blt) == \A i \in ScopesIn(s) \ {s} : i.tag \in blt
-
-\* a call the documentation allows (no missing ID, the receiver exists)
+\* a call the documentation allows (no missing ID, the receiver exists, inner scopes are
+\* constructed before the scope that contains them)
 CanDo(a, blt) ==
-    LET s == ScopeByTag(a.scope) IN
-    /\ IF a.op = "self" THEN InnerBuilt(s, blt) ELSE a.scope \in blt
-    /\ Missing(s, ActObjs(a), a.ns) = {}
+    /\ a \in ix.acts
+    /\ IF a.op = "self" THEN ix.inner[a.scope] \subseteq blt ELSE a.scope \in blt
+    /\ ~ix.miss[a]
 
-LinkAfter(lk, a) == StepLink(lk, Propagate(ScopeByTag(a.scope), ActObjs(a), a.ns))
-Touched(a) == {s.tag : s \in {x \in Under(ScopeByTag(a.scope)) : x.ns = a.ns}}
+LinkAfter(lk, a) == StepLink(lk, ix.upd[a])
+Touched(a) == ix.touched[a]
 
 Do(a) ==
     /\ CanDo(a, built)
@@ -143,13 +166,11 @@ Do(a) ==
     /\ cov' = cov \cup Touched(a)
     /\ tab' = [g \in DOMAIN tab |-> IF a.op = "ns" /\ g \in Touched(a) THEN a.table ELSE tab[g]]
     /\ hist' = Append(hist, a)
-    /\ UNCHANGED <<tree, ext>>
+    /\ UNCHANGED <<tree, ext, ix>>
 
 ApplySelf(g) == Do(Act("self", g, "", ""))
 ApplyNamespace(g, ns, T) == ns # "" /\ Do(Act("ns", g, ns, T))
-
-Acts(nss) == {Act("self", s.tag, "", "") : s \in TreeScopes}
-             \cup {Act("ns", s.tag, n, T) : s \in TreeScopes, n \in nss, T \in DOMAIN ext}
+Acts == ix.acts
 
 \* ------------------------------------------------------------------ the properties
 \* what a reference denotes: nearest enclosing scope (self), the table applied for its namespace
@@ -171,14 +192,16 @@ OtherNamespacesUntouched ==
        \A s \in TreeSites \cup ExtSites :
            (s.ns # a.ns \/ a.scope \notin Range(s.chain)) => link'[s.tag] = link[s.tag]]_vars
 
-AllLinkedUnder(s, lk) == \A x \in Under(s) : lk[x.tag] # None
-ValidateRefsIffAllLinked == \A s \in TreeScopes : VR(s, link) = AllLinkedUnder(s, link)
+AllLinkedUnder(g, lk) == \A x \in ix.under[g] : lk[x] # None
+ValidateRefsIffAllLinked == \A g \in ix.tscopes : VR(ix.scopes[g], link) = AllLinkedUnder(g, link)
 
 Commute(a, b) == a.ns # b.ns \/ a.op = "self" \/ a.table = b.table
-OrderIndependentOver(nss) ==
-    \A a, b \in {x \in Acts(nss) : CanDo(x, built)} :
-        /\ LinkAfter(LinkAfter(link, a), a) = LinkAfter(link, a)
-        /\ Commute(a, b) => LinkAfter(LinkAfter(link, a), b) = LinkAfter(LinkAfter(link, b), a)
+OrderIndependent ==
+    LET en == {x \in Acts : CanDo(x, built)}
+        after == [a \in en |-> LinkAfter(link, a)]
+    IN \A a \in en :
+          /\ LinkAfter(after[a], a) = after[a]
+          /\ \A b \in en : Commute(a, b) => LinkAfter(after[a], b) = LinkAfter(after[b], a)
 
 \* well-formed (what the judged part of the check generates): unique tags, distinct IDs per
 \* scope, roots present, self references name an ID of their nearest scope, external scopes
@@ -336,11 +359,11 @@ Inline(t, env, k, X) ==
 
 \* every namespace has one table applied over all its references, everything is linked
 Uniform ==
-    /\ built = {s.tag : s \in TreeScopes}
+    /\ built = ix.tscopes
     /\ \A s \in TreeSites : link[s.tag] # None
     /\ \A n \in Namespaces : Cardinality({tab[s.tag] : s \in {x \in TreeSites : x.ns = n}}) = 1
 NsTab == [n \in Namespaces |-> tab[(CHOOSE s \in TreeSites : s.ns = n).tag]]
-ObjFn == [g \in {o.tag : o \in AllObjs} |-> CHOOSE o \in AllObjs : o.tag = g]
+ObjFn == ix.objs
 
 Raws(d) == LET R == RLink(link, ObjFn) IN Good(tree, d, tree, R) \cup Probe(tree, d, tree, R)
 
